@@ -78,6 +78,8 @@ def materialise(desc):
             idx.append(cnt.get(r[0], 0))
             cnt[r[0]] = idx[-1] + 1
         sc['index'] = idx
+    if k.get('extra'):
+        sc['extra'] = k['extra']
     if 'prm_over' in k:
         prm['call'] = scenes.deep_merge(prm['call'], k['prm_over'])
     eff = obs.effective(prm)
@@ -125,7 +127,7 @@ def flat_okta_case(rng, k):
     n = len(oktas)
     spacing = float(k.get('spacing', 1500.0))
     h0 = float(k.get('h0', 1000.0))
-    hs = [h0 + spacing * i for i in range(n)]
+    hs = [h0 if i == 0 else h0 + spacing * i for i in range(n)]          # keeps a -0.0 base
     layers = [{'h': h, 'count': OKTA_COUNT_40[o], 'std': 0.0} for h, o in zip(hs, oktas)]
     sc = scenes.flat_layers_scene(rng, layers, nce=k.get('nce', 1), nt=40 // k.get('nce', 1),
                                   order=k.get('order', 'asc'))
